@@ -53,6 +53,10 @@ InvalidFormat: ...
 Traceback (most recent call last):
     ...
 InvalidLength: ...
+>>> validate('(394)0-087')  # decimal values consist of digits only
+Traceback (most recent call last):
+    ...
+InvalidFormat: ...
 """
 
 import datetime
@@ -61,7 +65,7 @@ import re
 
 from stdnum import numdb
 from stdnum.exceptions import *
-from stdnum.util import clean
+from stdnum.util import clean, isdigits
 
 
 # our open copy of the application identifier database
@@ -162,6 +166,8 @@ def _decode_value(fmt, _type, value):
             return (value[1:4], _decode_value(fmt[3:], _type, value[0] + value[4:]))
         digits = int(value[0])
         value = value[1:]
+        if not isdigits(value):
+            raise InvalidFormat()
         if digits:
             value = value[:-digits] + '.' + value[-digits:]
         return decimal.Decimal(value)
